@@ -337,6 +337,59 @@ fn seeded_case(job: &Job) {
     mc::describe(|| json!({"op": "forest fit (seeded RNG)", "context": ctx, "predictions_on_queries": a.pred, "oob": a.oob, "samples": a.json["samples"]}));
 }
 
+/// Class-size family: every row count n of the quantified range x every two-class split (c, n-c) and
+/// three-class layouts with singleton classes; one feature with distinct values. The sizes of the
+/// stratified bootstrap blocks depend only on (n, class sizes), so this enumerates that dependence
+/// completely; the draws themselves come from the seeded generator (seeds as configurations).
+fn sizes_case(job: &Job) {
+    let n = job.u("n");
+    let seed = job.u("seed") as u64;
+    // layouts: 0..n-2 -> two classes (c = layout+1 rows of the first); n-1.. -> three classes
+    let layouts = (n - 1) + 3;
+    let l = mc::choose(layouts);
+    let sizes: Vec<usize> = if l < n - 1 {
+        vec![l + 1, n - l - 1]
+    } else {
+        match l - (n - 1) {
+            0 => vec![1, 1, n - 2],
+            1 => vec![1, (n - 1) / 2, n - 1 - (n - 1) / 2],
+            _ => vec![n - 2, 1, 1],
+        }
+    };
+    let labels = [-3.0, 7.0, 10.0];
+    let mut y: Vec<f64> = Vec::new();
+    for (ci, sz) in sizes.iter().enumerate() {
+        y.extend(std::iter::repeat(labels[ci]).take(*sz));
+    }
+    // interleave so that classes are not contiguous in row order
+    let interleave = mc::choose(2) == 1;
+    if interleave {
+        let m = y.len();
+        // multiplication by 7 permutes the rows unless 7 | m; then reverse instead
+        y = if m % 7 != 0 { (0..m).map(|i| y[(i * 7) % m]).collect() } else { (0..m).map(|i| y[m - 1 - i]).collect() };
+    }
+    let rows: Vec<Vec<f64>> = (0..n).map(|i| vec![i as f64]).collect();
+    let n_trees = 2usize;
+    let x: DM = dm(&rows);
+    let q = rows.clone();
+    let ctx = format!("class-size family n={} class sizes {:?}{} classifier seed={} n_trees={} keep_samples=true", n, sizes, if interleave { " (interleaved rows)" } else { "" }, seed, n_trees);
+    let site = "forest.classifier:class-sizes";
+    match mc::guard(|| fit_classifier(&x, &y, &q, cparams(0, LIMITS[0], n_trees, None, true, seed))) {
+        Ok(Ok(o)) => {
+            check_classifier(site, &ctx, &rows, &y, n_trees, true, &o, &q);
+            mc::count("class_size_fits");
+            if sizes.iter().any(|s| *s == 1) {
+                mc::count("class_size_fits_singleton_class");
+            }
+            mc::nontrivial();
+            mc::outcome(mc::hash::mix(mc::hash::h_f64s(&o.pred), mc::hash::h_str(&o.json["samples"].to_string())));
+            mc::describe(|| json!({"op": "forest fit (seeded RNG), class-size family", "context": ctx, "samples": o.json["samples"]}));
+        }
+        Ok(Err(e)) => mc::violation(format!("{}:error", site), format!("{}: {}", ctx, e)),
+        Err(p) => mc::violation(format!("{}:panic", site), format!("{}: {}", ctx, p.brief())),
+    }
+}
+
 fn bootstrap_case(job: &Job) {
     let regression = job.b("regression");
     let n_trees = job.u("n_trees");
@@ -478,13 +531,20 @@ impl Harness for C06 {
                 }
             }
         }
+        // (c) class-size family: every n x every class-size layout
+        for n in 4..=120usize {
+            for sd in 0..(if t { 4usize } else { 1 }) {
+                jobs.push(Job::new(format!("sizes-n{}-s{}", n, sd), json!({"kind": "sizes", "n": n, "seed": seed0 as usize + sd})));
+            }
+        }
         Plan {
             jobs,
             budget_s: if t { 2400 } else { 40 },
             case_deadline_ms: 20_000,
-            floors: vec![("seeded_fits", 10_000), ("bootstrap_schedules", 10_000), ("feature_shuffles_explored", 1000), ("oob_rows_checked", 10_000), ("oob_rows_partial", 1000), ("rows_with_disagreeing_trees", 1000)],
+            floors: vec![("seeded_fits", 10_000), ("bootstrap_schedules", 10_000), ("feature_shuffles_explored", 1000), ("oob_rows_checked", 10_000), ("oob_rows_partial", 1000), ("rows_with_disagreeing_trees", 1000), ("class_size_fits", 10_000), ("class_size_fits_singleton_class", 500)],
             bounds: json!({
                 "seeded": format!("7 lattice data sets x {{classifier, regressor}} x seeds {}..{} x n_trees {{1,2,3,5,10,30}} x m in {{None,1..p}} x 6 (max_depth, min_samples_leaf, min_samples_split) settings x keep_samples x 3 criteria", seed0, seed0 as usize + nseeds),
+                "class_sizes": "classifier, p=1 distinct values: every n in 4..=120 x every two-class split (c, n-c), c=1..n-1, and three layouts with singleton classes, rows contiguous or interleaved, 2 trees, keep_samples (1 seed quick, 4 thorough): stratification and all other classifier clauses",
                 "bootstrap": "n=4 rows (2+2 classes / 2 target vectors), 3 layouts per p in {1,2}, n_trees in {1,2}, m in {p, 1}: EVERY bootstrap outcome (16 per classifier tree, 256 per regressor tree) and every feature-subsampling shuffle",
             }),
         }
@@ -494,6 +554,7 @@ impl Harness for C06 {
         match job.kind() {
             "seeded" => seeded_case(job),
             "bootstrap" => bootstrap_case(job),
+            "sizes" => sizes_case(job),
             other => panic!("unknown job kind {}", other),
         }
     }
